@@ -44,6 +44,7 @@ RULE = (
     "distinct canonical JSON (enumerated part: distinct (member, mapping))"
 )
 RULE += " " + "Added after the seeding rounds: state 'near-default' - a value that differs from a non-empty default only by an inner blank, one character more or less, or letter case (refused under ERROR_UNLESS_DEFAULT)."
+RULE += " " + "Round 7: near-default values also with a stray list separator (default + ',', ',' + default, ',' alone for empty defaults)."
 ASSUMPTIONS = [
     "the tables of SSC-only properties and their kinds are transcribed from the docstrings of SSCSimfile/SSCChart and docs/source/known-properties.rst",
     "SMSimfile.blank() / SMChart.blank() are the documented default templates and are read through the public API",
